@@ -343,5 +343,24 @@ def run(chk, prog):
                 chk.check(not bad and "?" not in rd, "R5", A.loc(f_, x), "construction calls %s(), which reads no grid data and nothing derived from it (%s)"
                           % (x["callee"].split("::")[-1], bad or "geometry/configuration only"), "ctor-reads-profile:%s:%s" % (x["callee"].split("::")[-1], bad))
     chk.floor("R5-construction-calls-on-the-phase-space", n5, 3)
+    # ---- R6: every result cell is written by every request ------------------------------------------------------------------------------------------------
+    # a member that holds results handed out by accessors (spectrum, intensity, wake potential: written outside construction, not an FFT
+    # buffer) is stored by the operation under no condition on the data - or the skipped case stores the cell too.  A bunch skipped with
+    # `continue` keeps the row an earlier request left there.
+    n6 = 0
+    for op in ops:
+        ev_, sc_ = m.events[op]
+        st6 = [a_ for a_ in sc_.accesses if a_.kind == "store" and a_.idx is not None and a_.base in carried and a_.op == "="]
+        for a_ in st6:
+            pg = [(g_, pol_) for g_, pol_ in I.plain_guards(a_.guards) if isinstance(g_, dict) and g_.get("k") not in ("SwitchCase", "Catch")]
+            n6 += 1
+            if not pg:
+                continue
+            covered = any(b_ is not a_ and b_.base == a_.base and len(b_.idx) == len(a_.idx) and
+                          any(I.guards_complementary(ga, gb) for ga in pg for gb in I.plain_guards(b_.guards)) for b_ in st6)
+            chk.check(covered, "R6", A.loc(m.fns[op], {"line": a_.line}), "%s stores %s[%s] on every path (it is under the condition `%s`, and the other case stores nothing there: "
+                      "the cell keeps what an earlier request left)" % (op, a_.base, ", ".join(str(i_) for i_ in a_.idx), A.show(pg[0][0])[:50]),
+                      "%s:result-not-always-stored:%s" % (op, a_.base))
+    chk.floor("R6-result-stores", n6, 3)
     chk.notes.append("C18: dirty/read/rewrite footprints of every work buffer for every ordered pair of operations "
                      "(updateCSR, wakePotential, padBunchProfiles); accumulation resets; plan/buffer binding only at construction.")
